@@ -9,7 +9,7 @@ from ..core import AnalysisError, where, norm, VERIF
 from ..consteval import Opaque
 from ..ppctable import PpcModel
 from ..shapes import u
-from ..srcmodel import walk_no_nested
+from ..srcmodel import parent, walk_no_nested
 from . import c10_common
 
 
@@ -286,7 +286,14 @@ def check_names(M, mod, R, cname, ci):
             # constant subscripts of namestr
             if isinstance(n, ast.Subscript) and u(n.value) == 'self.namestr' and isinstance(n.slice, ast.Constant) \
                     and isinstance(n.slice.value, int) and not isinstance(namestr, dict):
-                if n.slice.value >= len(names):
+                # a dominating guard on the length of namestr makes the read safe
+                guarded = False
+                q = parent(n)
+                while q is not None and q is not fn:
+                    if isinstance(q, ast.If) and 'len(self.namestr) > %d' % n.slice.value in u(q.test) and any(n in list(ast.walk(b)) for b in q.body):
+                        guarded = True
+                    q = parent(q)
+                if n.slice.value >= len(names) and not guarded:
                     R.violation(cname, '%s:%s:namestr[%d]' % (cname, mname, n.slice.value),
                                 '%s.%s (inherited from %s) reads namestr[%d] but %s.namestr has %d entries: IndexError on that path'
                                 % (cname, mname, k, n.slice.value, cname, len(names)), where(mod, n),
@@ -426,6 +433,7 @@ def check_arch(M, mod, R, cname, ci, ref):
 
 
 MUTANTS = [
+    ('name2str-unguarded', 'miasmx/arch/ppc_arch.py', "        if self.ra == 0 and len(self.namestr) > 1:", "        if self.ra == 0:", 'C18.D4'),
     ('addc-8', 'miasmx/arch/ppc_arch.py', "namsdct = {'ADD':266, 'ADDC':10,", "namsdct = {'ADD':266, 'ADDC':8,", 'C18.D'),
     ('rb-width', 'miasmx/arch/ppc_arch.py', "class bm_rb(bm):\n    l = 5", "class bm_rb(bm):\n    l = 4", 'C18.D1'),
     ('cmp-vs-tw', 'miasmx/arch/ppc_arch.py', "namedct = {'CMP':0, 'CMPL':32}", "namedct = {'CMP':4, 'CMPL':32}", 'C18.D2'),
